@@ -48,6 +48,7 @@ namespace bxdecay0 {
 
   void Bi207(i_random & prng_, event & event_, const double tcnuc_, double & tdnuc_)
   {
+    BXDECAY0_VERIF_SCOPE("scheme:Bi207", tcnuc_);
     static const double pi    = M_PI;
     static const double twopi = 2 * pi;
     double t;
